@@ -463,6 +463,15 @@ func Run(c *vh.Ctx) {
 				}
 			}
 		}
+		if d := os.Getenv("C16_DUMP"); d != "" { // development aid: the sources of the selected programs
+			os.MkdirAll(d, 0o755)
+			for _, p := range progs {
+				os.WriteFile(d+"/"+p.Tags[0]+".php", []byte(p.Src), 0o644)
+				for rel, src := range p.Libs {
+					os.WriteFile(d+"/"+p.Tags[0]+"."+strings.ReplaceAll(rel, "/", "_"), []byte(src), 0o644)
+				}
+			}
+		}
 		rn.batch(progs, false)
 		rn.shrink()
 		return
